@@ -197,7 +197,9 @@ def merge_from_tlc(ctx, hists, SIZE=8, WINDOW=3):
     rng = ctx.rng
     out = []
     for h in hists:
-        addr = rng.choice([0x1000, 0x0E1EC000, 0xFFD0, 0x00FFFF80])
+        addr = rng.choice([0x1000, 0x0E1EC000, 0xFFD0, 0x00FFFF80, 0, 0])
+        if addr == 0 and min([0] + list(h["offs"])) < 0:
+            addr = 0x1000   # an area at address 0 has nothing below it
         out.append({"op": "merge", "addr": addr, "size": SIZE * 16, "expect": h["phase"],
                     "inputs": [{"off": o * 16, "len": ln * 16, "src": "tool" if ln == 3 else "own", "seed": i + len(out)}
                                for i, (o, ln) in enumerate(zip(h["offs"], h["lens"]))],
@@ -212,7 +214,7 @@ def merge_scenarios(ctx):
     n = 120 if ctx.quick else 2500
     for k in range(n):
         size = rng.choice([48, 96, 128, 160, 256, 1000])
-        addr = rng.choice([0x2000, 0x0E1EC000, 0xFFC0, 0x00FFFF00, 0x7FFFFF80, 0xFFFFF000])
+        addr = rng.choice([0x2000, 0x0E1EC000, 0xFFC0, 0x00FFFF00, 0x7FFFFF80, 0xFFFFF000, 0, 0])
         nrec = rng.randint(0, 8)
         inputs = []
         cur = 0
